@@ -363,6 +363,23 @@ _QCE_ATTRS = {QCE: {"error_code": "fresh:int", "frame_type": "fresh:Optional[int
 # an empty payload / a first Initial without CRYPTO PROTOCOL_VIOLATION.  Every handler is called by its contract (H);
 # the handlers' entry conditions on the epoch (ACK, CRYPTO: not 0-RTT) are proved from the epoch column of the table.
 MEM = "MemoryError"  # Buffer(...) allocation failure (declared by the Buffer model): resource exhaustion, not an input-dependent failure
+
+# RESULT of _payload_received (used by the acknowledgement machinery, C12).  From RFC 9000 13.2.1 / 9.1, not from the code's tables:
+#   a packet is ack-eliciting iff it carries at least one frame other than ACK (0x02, 0x03), PADDING (0x00), CONNECTION_CLOSE (0x1c, 0x1d);
+#   a packet is a probing packet iff every frame in it is PATH_CHALLENGE (0x1a), PATH_RESPONSE (0x1b), NEW_CONNECTION_ID (0x18) or PADDING.
+# Ghosts over the frames parsed so far, updated where the frame type has just been read and looked up (so a frame whose
+# handler ends in StreamFinishedError - ignored by the dispatcher - still counts: the packet is ack-eliciting all the same):
+#   g_ae  some parsed frame is ack-eliciting          g_np  some parsed frame is not a probing frame
+R.spec(
+    """
+def ack_eliciting_type(t):
+    return not (t == 0 or t == 2 or t == 3 or t == 28 or t == 29)
+
+def probing_type(t):
+    return t == 0 or t == 24 or t == 26 or t == 27
+"""
+)
+_LOOKUP = "frame_handler, frame_epochs = self.__frame_handlers[frame_type]"
 R.contract(
     "QuicConnection._payload_received",
     params={"plain": "bytes"},
@@ -371,8 +388,17 @@ R.contract(
     raises={QCE: None, MEM: None},
     raise_attrs=_QCE_ATTRS,
     modifies=["<everything>"],
-    loops={0: dict(invariant=["implies(crypto_frame_found, frame_found)", "implies(is_ack_eliciting, frame_found)"], modifies=["<everything>", "<opaque>"])},
-    ensures=["frame_found", "implies(crypto_frame_required, crypto_frame_found)", "result[0] == is_ack_eliciting"],
+    ghost_at={"buf = Buffer(data=plain)": {"g_ae": "False", "g_np": "False"},
+              _LOOKUP: {"g_ae": "g_ae or ack_eliciting_type(frame_type)", "g_np": "g_np or not probing_type(frame_type)"}},
+    loops={0: dict(invariant=["implies(crypto_frame_found, frame_found)",
+                              "is_ack_eliciting == g_ae",
+                              "(is_probing is None) == (not frame_found)",
+                              "implies(is_probing is not None, some(is_probing) == (not g_np))",
+                              "implies(not frame_found, not g_ae and not g_np)"],
+                   modifies=["<everything>", "<opaque>", "g_ae", "g_np"])},
+    ensures=["frame_found", "implies(crypto_frame_required, crypto_frame_found)",
+             # the pair handed to receive_datagram: (packet is ack-eliciting, packet is a probing packet)
+             "result[0] == g_ae", "result[1] == (not g_np)"],
     **_H,
 )
 
@@ -435,5 +461,40 @@ R.contract(
     raises={},
     modifies=["<everything>"],
     ensures=["implies(now >= some(old(self._close_at)), self._state == QuicConnectionState.TERMINATED and self._close_at is None and len(self._events) == len(old(self._events)) + 1)"],
+    **_H,
+)
+
+# ---------------------------------------------------------------------------------------------- _initialize: SPACES / CS1-CS3 established
+# block contract on the three table assignments of _initialize (crypto output buffers, crypto streams, packet number
+# spaces): afterwards the three epochs are present in each, every epoch with an output buffer has a crypto stream, the
+# crypto streams' send halves are neither finished nor reset and their receive halves have no final size
+R.contract("QuicPacketSpace.__init__", inline=True)
+R.contract(
+    "QuicConnection._initialize@tables",
+    region={"anchor": "writes:_crypto_buffers", "span": 3},
+    params={},
+    raises={MEM: None},
+    modifies=["self._crypto_buffers", "self._crypto_streams", "self._spaces"],
+    ensures=[SPACES, CRYPTO_STREAMS, CS_BUFFERS, CS_SENDERS,
+             "forall(lambda e: implies(e in self._crypto_streams, self._crypto_streams[e].receiver._final_size is None and self._crypto_streams[e].stream_id is None), types={'e': 'Epoch'})",
+             "Epoch.ZERO_RTT not in self._spaces"],
+    **_H,
+)
+
+# FINDING (pre-authentication, server): block contract on the server-initialisation statement of receive_datagram, up to the
+# statement after its assertion (stop_at).  CLAIM (C05): nothing is raised.  REFUTED on the unchanged tree:
+# `assert header.packet_type == QuicPacketType.INITIAL` fails for a 0-RTT / Handshake long-header packet that follows an
+# INITIAL packet which failed authentication (the state is still FIRSTFLIGHT); natively reproduced
+# (tools/repro/c05_firstflight_assert.py), repair in tools/fixes/c05_firstflight_assert.patch.
+R.contract(
+    "QuicConnection.receive_datagram@first_packet",
+    region={"anchor": "if not self._is_client and self._state == QuicConnectionState.FIRSTFLIGHT:", "span": 1},
+    params={"header": "QuicHeader", "network_path": "QuicNetworkPath"},
+    # what the preceding statements of receive_datagram leave possible: every packet type except Version Negotiation and Retry
+    assume_pre=["header.packet_type != QuicPacketType.VERSION_NEGOTIATION and header.packet_type != QuicPacketType.RETRY"],
+    raises={},
+    stop_at=["crypto_frame_required = True"],
+    modifies=[],
+    ensures=["self._state == old(self._state)"],
     **_H,
 )
